@@ -60,14 +60,42 @@ func refKind(t int) directive.Enumeration {
 		return directive.Path
 	case tRequestObj:
 		return directive.Request
+	case tIncludeFile, tIncludeMissing:
+		return directive.Include
 	}
 	return directive.Jsight
 }
 
-// refResolveLines: parents by the C06 rule (no parentheses in these documents).
+// refResolveLines: parents by the C06 rule; "(" and ")" lines open and close
+// the explicit context of the directive before them (they are not directives
+// themselves: parent -1, never matched by kind).
 func refResolveLines(lines []refLine) bool {
 	cur := -1
+	last := -1 // the directive read last (the one a "(" belongs to)
+	explicit := make([]bool, len(lines))
 	for i := range lines {
+		switch lines[i].t {
+		case tOpen:
+			if last < 0 {
+				return false
+			}
+			explicit[last] = true
+			lines[i].parent = -1
+			continue
+		case tClose:
+			lines[i].parent = -1
+			c := cur
+			for c != -1 && !explicit[c] {
+				c = lines[c].parent
+			}
+			if c == -1 {
+				return false
+			}
+			explicit[c] = false
+			cur = lines[c].parent
+			last = -1
+			continue
+		}
 		k := refKind(lines[i].t)
 		c := cur
 		placed := false
@@ -81,6 +109,9 @@ func refResolveLines(lines []refLine) bool {
 				placed = true
 				break
 			}
+			if explicit[c] {
+				return false
+			}
 			c = lines[c].parent
 		}
 		if !placed {
@@ -90,6 +121,12 @@ func refResolveLines(lines []refLine) bool {
 			lines[i].parent = -1
 		}
 		cur = i
+		last = i
+	}
+	for c := cur; c != -1; c = lines[c].parent {
+		if explicit[c] {
+			return false
+		}
 	}
 	return true
 }
